@@ -68,7 +68,7 @@ Lemma sync_success_wins es e :
     (forall b, In b nl -> sync_of addrs b = Some true -> fut (R (es ++ [e])) = FOk b) /\
     (forall b, In b nl -> In b (ifl (R (es ++ [e]))) \/ sync_of addrs b <> None).
 Proof.
-  rewrite run_snoc. destruct (step_inv addrs Hn (R es) e (run_inv es)) as [_ [_ [_ S]]]. exact S.
+  rewrite run_snoc. destruct (step_inv addrs Hn (R es) e (run_inv es)) as [_ [_ [_ [S _]]]]. exact S.
 Qed.
 
 Lemma start_winner w :
@@ -129,11 +129,11 @@ Proof.
 Qed.
 
 (* 5. at most one attempt in flight per address family *)
-Lemma one_per_family es : NoDup (map (fam_of addrs) (ifl (R es))).
+Lemma inv_one_per_family s : Inv s -> NoDup (map (fam_of addrs) (ifl s)).
 Proof.
-  destruct (run_inv es) as [[C _] _].
+  intros [[C _] _].
   apply (NoDup_map_coarser (inP addrs)); [apply (c_q1 _ _ _ C)|].
-  assert (B : forall a, In a (ifl (R es)) -> a < n).
+  assert (B : forall a, In a (ifl s) -> a < n).
   { intros a Ha. apply (c_ifl_st _ _ _ C) in Ha. apply cnt_in in Ha.
     pose proof (c_cnt _ _ _ C a). destruct (Nat.ltb_spec a n); lia. }
   assert (K : forall a, a < n ->
@@ -147,11 +147,14 @@ Proof.
     try congruence.
 Qed.
 
+Lemma one_per_family es : NoDup (map (fam_of addrs) (ifl (R es))).
+Proof. apply inv_one_per_family. apply run_inv. Qed.
+
 (* 7. liveness as a state property: nothing in flight and the fallback timer not armed => resolved *)
-Lemma quiescent_is_resolved es :
-  infl (R es) = [] -> tmo_armed (R es) = false -> is_done (R es) = true.
+Lemma inv_quiescent s :
+  Inv s -> infl s = [] -> tmo_armed s = false -> is_done s = true.
 Proof.
-  intros I A. destruct (run_inv es) as [[C _] LV]. set (s := R es) in *.
+  intros [[C _] LV] I A.
   destruct (is_done s) eqn:D; auto. exfalso.
   destruct (LV D) as [H|H]; [congruence|].
   pose proof (c_rem _ _ _ C) as CR. rewrite I in CR. simpl in CR.
@@ -172,6 +175,10 @@ Proof.
     unfold qf in Q. destruct (tmo_var s) eqn:TV; [|change (cnt [] a) with 0 in Q; lia].
     pose proof (c_t2 _ _ _ C TV A). congruence.
 Qed.
+
+Lemma quiescent_is_resolved es :
+  infl (R es) = [] -> tmo_armed (R es) = false -> is_done (R es) = true.
+Proof. apply inv_quiescent. apply run_inv. Qed.
 
 (* 8. self.remaining = attempts not yet completed; the log has no duplicates *)
 Lemma remaining_counts es :
